@@ -21,7 +21,7 @@ import ast
 import copy
 from typing import Any, Callable, Iterable
 
-from ..engine.normalize import ANCHOR_NAMES, _bind, _helper_target, _replace_node, inline_helpers
+from ..engine.normalize import ANCHOR_NAMES, _bind, _helper_target, _replace_node
 from ..engine.report import AnalysisError
 from ..engine.resolver import ClassInfo, FuncInfo, FuncNode, Program, walk_no_nested
 from ..engine.sympath import Effect, Path, SymExec, SymUnsupported
@@ -165,6 +165,7 @@ class OrderedSymExec(SymExec):
                 for e in reversed(q.effects):
                     if e.kind == "loop" and e.orig is s:
                         e.env = {k: v for k, v in env.items() if k not in bound}  # type: ignore[attr-defined]
+                        e.entry = env  # type: ignore[attr-defined]  # every local at loop entry
                         break
             return out
         call = self._whole_call(s)
@@ -257,8 +258,10 @@ def inline_value_helpers(prog: Program, fn: FuncInfo, root: FuncNode, rounds: in
 
 
 def spliced(prog: Program, fn: FuncInfo) -> FuncNode:
-    """`fn` with simple private helpers spliced in (engine) and value helpers turned into expressions."""
-    return inline_value_helpers(prog, fn, inline_helpers(prog, fn))
+    """A copy of `fn` in which calls of private value helpers (no effects; any number of returns, reassigned
+    parameters and locals allowed) are replaced by the expression they compute.  Helpers with effects are not
+    spliced: OrderedSymExec executes them when the call is the whole value of a statement."""
+    return inline_value_helpers(prog, fn, copy.deepcopy(fn.node))
 
 
 def ordered_paths(prog: Program, fn: FuncInfo, inline: bool = True, max_paths: int = 4096) -> list[Path]:
